@@ -55,6 +55,20 @@ Theorem C13_conditionals_closed : forall lm (P : value -> Prop), P VVoid ->
 Proof. exact conditionals_closed_all. Qed.
 Print Assumptions C13_conditionals_closed.
 
+(* the unary primitives; H_libm enters here: sin and cos map finite doubles to
+   finite doubles ([sincos_finite]); exp maps a finite x <= 0 into [0,1]
+   ([exp_unit]); log needs nothing (its result is guarded); a string is
+   shorter than 2^64 bytes *)
+Theorem C13_unary_closed : forall lm,
+  closed_on lm real_abs_body [rarg] rarg /\ closed_on lm real_sqrt_body [rarg] rarg /\
+  closed_on lm real_ln_body [rarg] rarg /\
+  (sincos_finite lm -> closed_on lm real_sin_body [rarg] rarg /\ closed_on lm real_cos_body [rarg] rarg) /\
+  (exp_unit lm -> closed_on lm real_sigmoid_body [rarg] rarg) /\
+  closed_on lm real_length_body
+    [(fun v => v = VVoid \/ exists s, v = VString s /\ Z.of_nat (length s) < 2 ^ 64)] rarg.
+Proof. exact unary_closed_all. Qed.
+Print Assumptions C13_unary_closed.
+
 (* ------------------------------------------------------------------ *)
 (* strictness: undefined whenever a fetched argument is undefined *)
 Theorem C13_strict_on_fetched_arguments : forall lm,
@@ -68,6 +82,101 @@ Theorem C13_strict_on_fetched_arguments : forall lm,
   strict_on lm string_ife_body 4.
 Proof. exact strict_all. Qed.
 Print Assumptions C13_strict_on_fetched_arguments.
+
+(* ------------------------------------------------------------------ *)
+(* where a result is defined it is the IEEE-754 result of the named operation *)
+
+(* (a) on two (one) doubles of ANY kind -- NaN and infinities included -- each
+   body returns the Flocq binary64 operation, behind its guard
+   ([guard r] = [VDouble r] when r is finite, else undefined) *)
+Theorem C13_bodies_compute_the_ieee_operations : forall lm x y,
+  run_body lm real_add_body [VDouble x; VDouble y] = Val (guard (F64.add x y)) /\
+  run_body lm real_sub_body [VDouble x; VDouble y] = Val (guard (F64.sub x y)) /\
+  run_body lm real_mul_body [VDouble x; VDouble y] = Val (guard (F64.mul x y)) /\
+  run_body lm real_div_body [VDouble x; VDouble y] = Val (guard (F64.div x y)) /\
+  run_body lm real_idiv_body [VDouble x; VDouble y] = Val (guard (F64.floor (F64.div x y))) /\
+  run_body lm real_mod_body [VDouble x; VDouble y] = Val (guard (F64.fmod x y)) /\
+  run_body lm real_max_body [VDouble x; VDouble y] = Val (guard (F64.fmax x y)) /\
+  run_body lm real_aq_body [VDouble x; VDouble y] =
+    Val (guard (F64.div x (F64.sqrt (F64.add one (F64.mul y y))))) /\
+  run_body lm real_gt_body [VDouble x; VDouble y] = Val (VInt (if F64.ltb y x then 1 else 0)) /\
+  run_body lm real_lt_body [VDouble x; VDouble y] = Val (VInt (if F64.ltb x y then 1 else 0)) /\
+  run_body lm real_abs_body [VDouble x] = Val (VDouble (F64.abs x)) /\
+  run_body lm real_sqrt_body [VDouble x] = Val (if F64.ltb x zero then VVoid else VDouble (F64.sqrt x)) /\
+  run_body lm real_ln_body [VDouble x] = Val (guard (l_log lm x)) /\
+  run_body lm real_sin_body [VDouble x] = Val (VDouble (l_sin lm x)) /\
+  run_body lm real_cos_body [VDouble x] = Val (VDouble (l_cos lm x)) /\
+  run_body lm real_sigmoid_body [VDouble x] =
+    Val (VDouble (if F64.leb zero x then F64.div one (F64.add one (l_exp lm (F64.neg x)))
+                  else F64.div (l_exp lm x) (F64.add one (l_exp lm x)))).
+Proof. exact bodies_ieee. Qed.
+Print Assumptions C13_bodies_compute_the_ieee_operations.
+
+(* (b) and those operations are the correctly rounded real operations
+   (RN = round to nearest even into binary64) whenever their result is finite *)
+Theorem C13_ieee_operations_on_the_reals : forall x y, F64.is_finite x = true -> F64.is_finite y = true ->
+  (F64.is_finite (F64.add x y) = true -> B2R (F64.add x y) = RN (B2R x + B2R y)) /\
+  (F64.is_finite (F64.sub x y) = true -> B2R (F64.sub x y) = RN (B2R x - B2R y)) /\
+  (F64.is_finite (F64.mul x y) = true -> B2R (F64.mul x y) = RN (B2R x * B2R y)) /\
+  (F64.is_finite (F64.div x y) = true -> B2R y <> 0%R /\ B2R (F64.div x y) = RN (B2R x / B2R y)) /\
+  (F64.ltb x zero = false -> F64.is_finite (F64.sqrt x) = true /\ B2R (F64.sqrt x) = RN (sqrt (B2R x))) /\
+  (F64.is_finite (F64.abs x) = true /\ B2R (F64.abs x) = Rabs (B2R x)) /\
+  (F64.is_finite (F64.floor x) = true /\ B2R (F64.floor x) = IZR (Zfloor (B2R x))) /\
+  (F64.is_finite (F64.fmax x y) = true /\ B2R (F64.fmax x y) = Rmax (B2R x) (B2R y)).
+Proof. exact ieee_values. Qed.
+Print Assumptions C13_ieee_operations_on_the_reals.
+
+(* ------------------------------------------------------------------ *)
+(* conditionals take the documented branch -- value returned, argument
+   fetched, and the test characterised on the reals, so also AT the boundary
+   of the equality tolerance 2^-51 = 2 * DBL_EPSILON *)
+Theorem C13_ife_branch : forall lm x y t e, F64.is_finite x = true -> F64.is_finite y = true ->
+  run_body lm real_ife_body [VDouble x; VDouble y; t; e] = Val (if issmall (F64.sub x y) then t else e) /\
+  fetched_body lm real_ife_body [VDouble x; VDouble y; t; e] =
+    [0%nat; 1%nat; if issmall (F64.sub x y) then 2%nat else 3%nat] /\
+  (issmall (F64.sub x y) = true <-> (Rabs (RN (B2R x - B2R y)) < bpow radix2 (-51))%R).
+Proof. exact ife_branch. Qed.
+Print Assumptions C13_ife_branch.
+
+Theorem C13_ifz_branch : forall lm x t e,
+  run_body lm real_ifz_body [VDouble x; t; e] = Val (if issmall x then t else e) /\
+  fetched_body lm real_ifz_body [VDouble x; t; e] = [0%nat; if issmall x then 1%nat else 2%nat] /\
+  (issmall x = true <-> F64.is_finite x = true /\ (Rabs (B2R x) < bpow radix2 (-51))%R).
+Proof. exact ifz_branch. Qed.
+Print Assumptions C13_ifz_branch.
+
+Theorem C13_ifl_branch : forall lm x y t e, F64.is_finite x = true -> F64.is_finite y = true ->
+  run_body lm real_ifl_body [VDouble x; VDouble y; t; e] = Val (if F64.ltb x y then t else e) /\
+  fetched_body lm real_ifl_body [VDouble x; VDouble y; t; e] =
+    [0%nat; 1%nat; if F64.ltb x y then 2%nat else 3%nat] /\
+  (F64.ltb x y = true <-> (B2R x < B2R y)%R).
+Proof. exact ifl_branch. Qed.
+Print Assumptions C13_ifl_branch.
+
+(* ifb: argument 3 when min(v1,v2) <= v0 <= max(v1,v2), else argument 4 *)
+Theorem C13_ifb_branch : forall lm x y z t e,
+  F64.is_finite x = true -> F64.is_finite y = true -> F64.is_finite z = true ->
+  run_body lm real_ifb_body [VDouble x; VDouble y; VDouble z; t; e] = Val (if ifb_outside x y z then e else t) /\
+  fetched_body lm real_ifb_body [VDouble x; VDouble y; VDouble z; t; e] =
+    [0%nat; 1%nat; 2%nat; if ifb_outside x y z then 4%nat else 3%nat] /\
+  (ifb_outside x y z = false <-> (Rmin (B2R y) (B2R z) <= B2R x <= Rmax (B2R y) (B2R z))%R).
+Proof. exact ifb_branch. Qed.
+Print Assumptions C13_ifb_branch.
+
+(* ------------------------------------------------------------------ *)
+(* programs: every expression tree (Mep/Genome.tree) whose nodes are shipped
+   real/string primitives (strategy = the translated body), input variables
+   bound to good values, or good constants, with finite ephemeral parameters
+   and children rooted in the categories the arguments require ([wt]),
+   evaluates -- under ANY assignment [kc] of kinds to categories -- to a value
+   that is undefined or a good value of the root's category; in particular
+   never to NaN, an infinity, an exception or undefined behaviour.
+   By induction over the tree. *)
+Theorem C13_program_closed : forall lm, sincos_finite lm -> exp_unit lm ->
+  forall kc vars t, wt lm kc vars t ->
+  returns (good (kc (root_cat t))) (run_tree vars t) /\ returns fou (run_tree vars t).
+Proof. exact program_closed_both. Qed.
+Print Assumptions C13_program_closed.
 
 (* non-vacuity *)
 Example C13_rarg_inhabited :
@@ -85,3 +194,41 @@ Example C13_model_sees_missing_guard : forall lm,
            [VDouble (F64.of_bits 0x7FEFFFFFFFFFFFFF); VDouble (F64.of_bits 0x7FEFFFFFFFFFFFFF)]
   = Val (VDouble (F64.inf false)).
 Proof. intro. vm_compute. reflexivity. Qed.
+
+(* the tolerance boundary itself: 2^-51 is NOT small, its predecessor is; 1 + 2^-51 is
+   not equal to 1 for ife, 1 + 2^-52 is *)
+Example C13_tolerance_boundary :
+  issmall (F64.of_bits 0x3CC0000000000000) = false /\ issmall (F64.of_bits 0x3CBFFFFFFFFFFFFF) = true /\
+  issmall (F64.of_bits 0xBCBFFFFFFFFFFFFF) = true /\ issmall (F64.of_bits 0x8000000000000000) = true /\
+  ife_test (F64.of_bits 0x3FF0000000000002) one = false /\ ife_test (F64.of_bits 0x3FF0000000000001) one = true /\
+  ife_test (F64.of_bits 0x7FEFFFFFFFFFFFFF) (F64.of_bits 0xFFEFFFFFFFFFFFFF) = false.
+Proof. vm_compute. repeat split; reflexivity. Qed.
+(* a well-typed program exists and evaluates: ife(x0 + c, c', sqrt(x0), x0 / x0) on x0 = 0 *)
+Example C13_program_example : forall lm,
+  let kc := fun _ : nat => KReal in
+  let vars := fun i : nat => match i with O => Some (VDouble (F64.of_bits 0)) | _ => None end in
+  let sy b cats := {| s_opcode := 0; s_cat := 0; s_argcats := cats; s_parametric := false; s_strat := strategy_of lm b |} in
+  let x0 := Node {| s_opcode := 1; s_cat := 0; s_argcats := []; s_parametric := false;
+                    s_strat := Var 0 (fun v => Ret (Val v)) |} zero [] in
+  let c := Node (sy real_real_body []) one [] in
+  let t := Node (sy real_ife_body [0;0;0;0]%nat) zero
+             [Node (sy real_add_body [0;0]%nat) zero [x0; c]; c;
+              Node (sy real_sqrt_body [0]%nat) zero [x0];
+              Node (sy real_div_body [0;0]%nat) zero [x0; x0]] in
+  wt lm kc vars t /\ run_tree vars t = Val (VDouble (F64.of_bits 0)).
+Proof.
+  intros.
+  assert (P : forall b sg cats, In (b, sg) c13_table -> sig_okb kc sg cats 0%nat = true -> sym_ok lm kc vars (sy b cats)).
+  { intros b sg cats Hin Hs. left. exists b, sg. repeat split; assumption. }
+  assert (X : wt lm kc vars x0).
+  { cbn [wt x0]. repeat split; try reflexivity. right; left. split; [reflexivity|].
+    exists 0%nat, (VDouble (F64.of_bits 0)). repeat split; reflexivity. }
+  assert (C : wt lm kc vars c).
+  { cbn [wt c]. repeat split; try reflexivity. apply (P _ STerm); [cbn; tauto|reflexivity]. }
+  split.
+  - cbn [wt t]. repeat split; try reflexivity; try exact X; try exact C.
+    all: first [ exact (proj1 X) | exact (proj1 C) | apply (P _ (SIf 2)); [cbn; tauto|reflexivity]
+               | apply (P _ (SArith 2)); [cbn; tauto|reflexivity]
+               | apply (P _ (SArith 1)); [cbn; tauto|reflexivity] ].
+  - vm_compute. reflexivity.
+Qed.
